@@ -92,9 +92,9 @@ Allowed(state) == AllowedRfc(Rfc(state))
    a ServerHello selecting / a ClientHello offering a PSK; `empty': a
    Certificate with an empty list.  The drivers name messages; TLC derives the
    record from the name. *)
-M(t, ok, psk, empty) == [type |-> t, ok |-> ok, psk |-> psk, empty |-> empty]
-Names == {"CH", "CHpsk", "CHpskbad", "SH", "SHpsk", "NST", "EOED", "EE", "CERT",
-          "CERTempty", "CR", "CV", "CVbad", "FIN", "FINbad", "KU", "CCERT", "MH",
+M(t, ok, psk, empty) == [type |-> t, ok |-> ok, psk |-> psk, empty |-> empty, variant |-> ""]
+Names == {"CH", "CHpsk", "CHpskbad", "SH", "SHpsk", "NST", "EOED", "EE", "EEearly", "CERT",
+          "CERTempty", "CR", "CRctx", "CV", "CVbad", "FIN", "FINbad", "KU", "CCERT", "MH",
           "UNKNOWN"}
 Msg(n) ==
   CASE n = "CH"        -> M("CLIENT_HELLO", TRUE, FALSE, FALSE)
@@ -105,6 +105,11 @@ Msg(n) ==
     [] n = "NST"       -> M("NEW_SESSION_TICKET", TRUE, FALSE, FALSE)
     [] n = "EOED"      -> M("END_OF_EARLY_DATA", TRUE, FALSE, FALSE)
     [] n = "EE"        -> M("ENCRYPTED_EXTENSIONS", TRUE, FALSE, FALSE)
+    \* content variants that must not steer the order: EncryptedExtensions carrying
+    \* the early_data extension (whether or not a PSK was offered / selected), a
+    \* CertificateRequest with a non-empty request context
+    [] n = "EEearly"   -> [M("ENCRYPTED_EXTENSIONS", TRUE, FALSE, FALSE) EXCEPT !.variant = "early_data"]
+    [] n = "CRctx"     -> [M("CERTIFICATE_REQUEST", TRUE, FALSE, FALSE) EXCEPT !.variant = "context"]
     [] n = "CERT"      -> M("CERTIFICATE", TRUE, FALSE, FALSE)
     [] n = "CERTempty" -> M("CERTIFICATE", TRUE, FALSE, TRUE)
     [] n = "CR"        -> M("CERTIFICATE_REQUEST", TRUE, FALSE, FALSE)
@@ -154,6 +159,9 @@ Valid(s, m) ==
     [] m.type = "FINISHED"            -> m.ok                          \* 4.4.4
     [] m.type = "CERTIFICATE"         -> (s.role = "client" => ~m.empty)  \* 4.4.2
     [] m.type = "CLIENT_HELLO"        -> (m.psk => m.ok) \/ ~s.tickets  \* 4.2.11 binder
+    \* (whether an unsolicited early_data extension or a request context makes a
+    \*  client abort is extension validation, which the statement leaves open: such a
+    \*  message may be refused, or accepted exactly like the plain one)
     [] OTHER                          -> TRUE
 
 (* History flags after a message was accepted (used by AcceptF and, on what
@@ -236,6 +244,9 @@ ASSUME LegalOrdersComplete ==
   /\ LegalRun("client", FALSE, FALSE, <<"SH", "EE", "CERT", "CV", "FIN", "NST">>) = "CLIENT_POST_HANDSHAKE"
   /\ LegalRun("client", TRUE, FALSE, <<"SH", "EE", "CR", "CERT", "CV", "FIN">>) = "CLIENT_POST_HANDSHAKE"
   /\ LegalRun("client", TRUE, FALSE, <<"SHpsk", "EE", "FIN">>) = "CLIENT_POST_HANDSHAKE"
+  /\ LegalRun("client", TRUE, FALSE, <<"SHpsk", "EEearly", "FIN">>) = "CLIENT_POST_HANDSHAKE"
+  /\ LegalRun("client", FALSE, FALSE, <<"SH", "EEearly", "FIN">>) # "CLIENT_POST_HANDSHAKE"
+  /\ LegalRun("client", TRUE, FALSE, <<"SH", "EEearly", "FIN">>) # "CLIENT_POST_HANDSHAKE"
   /\ LegalRun("server", FALSE, FALSE, <<"CH", "FIN">>) = "SERVER_POST_HANDSHAKE"
   /\ LegalRun("server", FALSE, FALSE, <<"CHpsk", "FIN">>) = "SERVER_POST_HANDSHAKE"
   /\ LegalRun("server", FALSE, TRUE, <<"CH", "CERT", "CV", "FIN">>) = "SERVER_POST_HANDSHAKE"
@@ -318,13 +329,16 @@ Spec == Init /\ [][Next]_vars
 Count(x, sq) == Cardinality({i \in DOMAIN sq : sq[i] = x})
 SeqsOver(A) == UNION {[1..k -> A] : k \in 1..ScriptLen}
 Flights(A) == {f \in SeqsOver(A) : \A a \in A : Count(a, f) <= ScriptRep}
-ServerFlight == {"EE", "CR", "CERT", "CV", "FIN"}            \* sent to a client
-ClientFlight == {"CERT", "CERTempty", "CV", "FIN"}           \* sent to a server
+\* sent to a client: the flight, and the flight whose EncryptedExtensions
+\* carries early_data; sent to a server: the client's flight
+FlightAlphabets(role) ==
+  IF role = "client" THEN {{"EE", "CR", "CERT", "CV", "FIN"}, {"EEearly", "CR", "CERT", "CV", "FIN"}}
+  ELSE {{"CERT", "CERTempty", "CV", "FIN"}}
 Hellos(s) == IF s.role = "client"
              THEN (IF s.pskOffered THEN {"SH", "SHpsk"} ELSE {"SH"})
              ELSE (IF s.tickets THEN {"CH", "CHpsk"} ELSE {"CH"})
 Scripts(s) == {<<h>> \o f : h \in Hellos(s),
-                            f \in Flights(IF s.role = "client" THEN ServerFlight ELSE ClientFlight)}
+                            f \in UNION {Flights(A) : A \in FlightAlphabets(s.role)}}
 ScriptConfigs == {InitState("client", p, FALSE, FALSE) : p \in BOOLEAN}
                  \cup {InitState("server", FALSE, c, TRUE) : c \in BOOLEAN}
 RECURSIVE Join(_)
